@@ -23,6 +23,11 @@
 //     column and without ForceAggregate may also be absent (window(every: inf) drops empty selector tables) - but an
 //     empty window never carries a value.
 //
+// Calendar family: the same oracle with windows of whole calendar months (time.Date arithmetic, UTC) over a dataset
+// with points at month / year / leap-day boundaries +-1ns in two shard groups; and a request-forms family that calls
+// reads.Store.WindowAggregate directly with both ways of giving the window (WindowEvery int64 / Window message) and
+// judges the series cursors (judgeStore).
+//
 // Not judged (statement silent): order of rows/tables, column types (values are compared numerically), series without
 // a raw row in the bounds (no table is the Flux behaviour; only "a value out of nothing" is an alarm there).
 package c41
@@ -1464,6 +1469,9 @@ func TestCheck(t *testing.T) {
 			"Requests per mask dataset: bounds = every [a,b) with 0<=a<b<=N (21 / 36 / 28) x window (every,offset) in {(1,0),(2,0),(2,1),(3,0),(3,1),(1,1),(inf,0)} (quick: (1,0),(2,1),(3,0),(inf,0)); period=every x (field,aggregate) in {f,i,u}x{count,sum,mean,min,max,first,last} + {s,b}x{count,first,last} (quick: fields f,i,s) x createEmpty {f,t} x timeColumn {none,_start,_stop} x forceAggregate {f,t} (t only for selectors), " +
 			"each run with reads.MaxPointsPerBlock=3 (const->var overlay: every table-buffer / cursor-array boundary is crossed with <=8 points) and with the shipped 1000 (thorough: on the N=8 dataset; quick: windows (2,1),(3,0) and fields f,i only). " +
 			"Structured dataset 'big' on the shipped buffer size: 3 series with points at {0}, {0,999,1000,1001}, {5,1999,2000,2400}, every=1ns, bounds [0,1000),[0,1001),[0,2500) (quick: the last two), fields f,i,s (quick f,s), same aggregate/createEmpty/timeColumn/forceAggregate product (up to 2500 windows per series). " +
+			"Calendar dataset 'cal' (appended after the older families): 53 series over the instants b-1ns, b, b+1ns of the boundaries b = 1999-12-01, 2000-01-01 (year), 2000-02-01, 2000-02-29 (leap day), 2000-03-01, 2000-04-01 and noon of the 15th of Dec..Mar (every non-empty subset of {b-1ns,b,b+1ns} per boundary, first+last nanosecond of every period between two boundaries, all b-1ns / all b / all b+1ns, the mid-month points, all boundary points, all points), 80-day shard groups so that the data lies in exactly two shard groups (boundary 2000-02-11, inside the February windows), boundary instants in TSM and the +-1ns neighbours in the cache (thorough also: everything in TSM). " +
+			"Requests on it through the Flux reader: bounds = 8 pairs (thorough: all 36 pairs) of {1999-12-01-1ns, 1999-12-01, 2000-01-01, 2000-01-01+1ns, 2000-01-15T12, 2000-02-29, 2000-03-01+1ns, 2000-04-01, 2000-04-01+2ns} x window every in {1mo,2mo,3mo,12mo} (Every.Nsecs=0, Months>0; a mix of months and nanoseconds in `every` is rejected by interval.NewWindow) x offset in {0, 1ns, 1mo+1ns} (thorough also 1mo) + the control window every=720h x the same (field,aggregate) x createEmpty x timeColumn x forceAggregate product, shipped buffer size (thorough: also 3); windows computed with time.Date (UTC) month arithmetic. " +
+			"Request forms on the same dataset: reads.Store.WindowAggregate (the call the Flux reader makes) is called directly with the window given as WindowEvery/Offset int64 and as a Window message, every in {720h, 720h offset 1ns, 168h, MaxInt64}, plus calendar months {1,2,3,12}mo x offset {0, 1ns, 1mo+1ns} as a Window message, x the same bounds x (field,aggregate): every series cursor must yield one (time,value) pair per non-empty window, ascending, value = aggregate of the raw rows, time = unclipped window stop (count/sum/mean; not judged for MaxInt64) or the time of a raw row carrying the value (selectors). " +
 			"Oracle: reference computed from the rows ReadFilter returns through the same reader for the same bounds (see file header). non-trivial = (series, request) pairs whose series has >=1 raw row in the bounds (distinct by construction).",
 		Assumptions: []string{
 			"the value oracle is relative to the filter read through the same reader, as the statement defines it (C21 checks the filter read against the written points; the evidence counter filter_reads_differing_from_written_points is diagnostics only)",
@@ -1472,7 +1480,9 @@ func TestCheck(t *testing.T) {
 			"with a time column the row's _start/_stop may be the query bounds (Flux aggregateWindow semantics) or the clipped window; _time must be the clipped window start/stop",
 			"order of rows/tables and column types are not judged; values are compared numerically (1e-9 relative tolerance for mean)",
 			"reads.MaxPointsPerBlock is turned from a constant into a variable by the build overlay (c41/shim.json); the code uses it only as a size. Findings that appear only with the small size are confirmed by the 'big' family on the shipped size where reachable",
-			"window (every,offset) pairs use period=every and non-negative offsets, the only form the planner pushes down (isPushableWindow)",
+			"window (every,offset) pairs use period=every and non-negative offsets, the only form the planner pushes down (isPushableWindow; calendar-month durations are pushed down too)",
+				"calendar-month windows: window i is [1970-01-01 + (offsetMonths + i*every) months + offsetNs, next start) in UTC (time.Date arithmetic; window starts are on day 1, so no day clamping is involved). Violations in the calendar family use the same class signatures as the nanosecond families (the table implementations are the same), so a known finding of a class also covers its calendar-month instances",
+				"the request-forms family judges the reads.Store cursor the Flux tables are built from (WindowEvery is the form other storage clients send): its (time,value) convention - window stop for count/sum/mean, point time for selectors, no pair for an empty window - is what storage/flux consumes; classes Store.WindowAggregate/...",
 		},
 		QuickBudgetS: 70, ThoroughBudgetS: 780,
 		Run: func(c *vlib.Ctx) {
